@@ -70,7 +70,9 @@ def check_measure(ctx, psi, n, keep, seed, form=0):
     nq = _nq()
     keep = tuple(keep)
     arg = keep if form == 0 else (list(keep) if form == 1 else (keep[0] if len(keep) == 1 else keep))
-    psi_in = psi.copy()
+    layout = ['C', 'strided', 'readonly'][((seed if isinstance(seed, int) else 0) + len(keep) + form + n) % 3]  # a slice of a larger array / a read-only array holds the same state
+    ctx.label('state layout=' + layout)
+    psi_in = ref.with_layout(psi, layout)
     bits, prob, q1 = nq.sim.state.measure_quantum_vector(psi_in, arg, seed=seed)
     ctx.close(psi_in, psi, 0, 'input state not modified')
     want_p = ref.born_marginal(psi, n, keep)
